@@ -20,7 +20,7 @@ def replay(w):
         b = im[j]
         if "want" not in w:
             return any(bad for (_, bad) in b.get("acc", []))
-        want, _ = py_spec(fw, ew, sc, regs, sc["ops"][j][1])
+        want, _ = py_spec(fw, ew, sc, regs, sc["ops"][j][1], sc["ops"][j][2])
         first = b["raw"][0][0] if b.get("raw") else None
         got = ["ran", first] if first is not None else ([b["o"][0]] if b["o"][0] in ("ambiguous", "nomethod") else ["other", b["o"][0]])
         return got != want
